@@ -663,7 +663,7 @@ rip_text(char *buf, const size_t n, const uintptr_t rip)
 #define MAX_SUITES 512
 typedef struct {
         int cipher, hash;
-        long items, accepted, rejected, toolarge, runs, jobs, fails;
+        long items, accepted, rejected, toolarge, runs, jobs, gjobs, fails;
         long flush[O_NUM][3];
 } k3_suite;
 static k3_suite g_suites[MAX_SUITES];
@@ -706,6 +706,9 @@ fail(const k3_case *c, const k3_ctx *x, const char *kind, const char *obj, const
         vsnprintf(detail, sizeof(detail), fmt, ap);
         va_end(ap);
         if (g_xprop) { /* co-scheduled result != single result: property C04, not C07 */
+                /* contract checks are repeated (and reported) by the recording pass */
+                if (strstr(kind, "differs") == NULL && strcmp(kind, "status") != 0)
+                        return;
                 g_total_xprop++;
                 if (g_xprop_printed++ < 40)
                         printf("XPROP id=%ld var=%s ep=%d suite=%d/%d dir=%d n=%d kind=%s obj=%s %s\n",
@@ -1172,12 +1175,17 @@ run_placed(k3_case **cs, const int n, const k3_ctx *x)
         for (int i = 0; i < n; i++) {
                 k3_suite *s = &g_suites[cs[i]->suite];
 
+                int any = 0;
+
                 s->runs++;
                 s->jobs++;
                 for (int o = 0; o < O_NUM; o++)
                         if (cs[i]->o[o].present && !(o == O_DST && x->inplace) &&
-                            !(o == O_CTX && x->ep != IMBH_EP_DIRECT))
+                            !(o == O_CTX && x->ep != IMBH_EP_DIRECT)) {
                                 s->flush[o][cs[i]->o[o].flush ? cs[i]->o[o].side : S_MID]++;
+                                any |= cs[i]->o[o].flush && cs[i]->o[o].side != S_MID;
+                        }
+                s->gjobs += any;
         }
         alarm(20);
         if (sigsetjmp(g_jb, 1) == 0) {
@@ -1357,6 +1365,8 @@ batch_select(k3_case **cs, const int n, const int ep, const int inplace, k3_case
         for (int i = 0; i < n; i++) {
                 if (inplace ? cs[i]->oop_only : cs[i]->ip_only)
                         continue;
+                if (cs[i]->direct_only)
+                        continue;
                 if ((ep == IMBH_EP_SYNC || ep == IMBH_EP_SYNC_NOCHECK) && na > 0 &&
                     !same_sync_group(&act[0]->it_oop, &cs[i]->it_oop))
                         continue;
@@ -1388,7 +1398,7 @@ batch_schedule(k3_case **cs, const int n, uint64_t *seed)
                 k3_case *act[MAX_JOBS];
                 int ok[2] = { 0, 0 };
 
-                if (ep == IMBH_EP_DIRECT || !ep_ok(ep, cs[0]) || cs[0]->direct_only)
+                if (ep == IMBH_EP_DIRECT || !ep_ok(ep, cs[0]))
                         continue;
                 /* batch references: out of place, then in place */
                 for (int ip = 0; ip < 2; ip++) {
@@ -1613,9 +1623,9 @@ run_variant(const imbh_variant *v, const int footprint_only)
                 const k3_suite *s = &g_suites[i];
 
                 printf("CNT var=%s suite=%d/%d items=%ld accepted=%ld rejected=%ld toolarge=%ld "
-                       "runs=%ld fails=%ld",
+                       "runs=%ld gjobs=%ld fails=%ld",
                        v->name, s->cipher, s->hash, s->items, s->accepted, s->rejected, s->toolarge,
-                       s->runs, s->fails);
+                       s->runs, s->gjobs, s->fails);
                 for (int sd = S_END; sd <= S_START; sd++) {
                         printf(" %s=", side_name[sd]);
                         int first = 1;
